@@ -510,7 +510,7 @@ pub fn exec(prop: &str, case: &Case) -> Outcome {
                 detail: serde_json::json!({
                     "keys": mc.fam.n, "map": mc.map, "cache_geometry": mc.registry.map(|r| vec![r.0, r.1]),
                     "fanout": mc.fam.fanout, "key_length": mc.fam.keylen, "prefix_pairs": mc.fam.pairs, "leaf_fan": mc.fam.leaf_fan, "decreasing_values": mc.fam.decreasing,
-                    "section_vocabulary": mc.fam.sec_vocab, "section_parents": mc.fam.sec_parents, "rejected_inserts_after_each_key": mc.rejects, "one_run_of_rejected_inserts_at_half_way": mc.reject_run, "builder_handed_back_and_forth_between_threads": mc.threads,
+                    "section_vocabulary": mc.fam.sec_vocab, "section_parents": mc.fam.sec_parents, "rejected_inserts_after_each_key": mc.rejects, "one_run_of_rejected_inserts_at_half_way": mc.reject_run, "builder_handed_back_and_forth_between_threads": mc.threads, "prologue": mc.prologue,
                     "bound_bytes": run.bound, "live_after_new": run.after_new,
                     "max_live_at_checkpoints": run.max_live,
                     "live_at_first_tenth": run.live_at_tenth, "live_at_end": run.live_at_end,
